@@ -40,6 +40,8 @@ rewrites of the syntax tree, nothing is executed):
   lower_getters            attrgetter / itemgetter / one-expression key functions   (round 7)
   lower_derived_maps       a dict attribute caching k + len(C[k]) next to C        (round 7)
   lower_compiled_aliases   self.A = self.X.m after self.X._compile(...)            (round 7)
+  lower_local_method_aliases  x = self.m (or <parameter>.m of a utility class); x(...)  (round 8)
+  lower_merged_handlers    except Exception: ... if isinstance(e, K): A else: B     (round 8)
 """
 import ast
 import copy
